@@ -168,3 +168,58 @@ contract("C06", FILE, "msdFromMandG", cases=CASES, lang="c", replay="rmsd", cove
 # the cache clause of Trajectory.superpose (md.rmsd(precentered=True) trusts the cached traces): contract shared with C03
 contract("C06", "mdtraj/core/trajectory.py", "Trajectory.superpose", replay="ops")(c03.superpose)
 contract("C06", "mdtraj/core/trajectory.py", "Trajectory.center_coordinates", replay="ops")(c03.center)
+
+
+# =====================================================================================================
+# the SSE accumulation kernel msd_atom_major (theobald_rmsd_sse.h): inner-product matrix of two centred structures
+def msd_atom_major(ctx, case):
+    """for n atoms (n concrete per case: every remainder modulo the SIMD width 4, one and two full blocks; coordinates symbolic) the
+    matrix handed to msdFromMandG is  M[3*i + j] = sum_atoms a[atom][i] * b[atom][j]  (exact polynomial identity on the code's terms:
+    deinterleaving loads, tail masks and the horizontal-add epilogue included), together with G_a, G_b, n and the rotation request;
+    reading never goes beyond the last real atom in the tail block."""
+    import sympy as sp
+
+    n, compute_rot = case
+    ex = ctx.ex
+    c = ctx.load_c(FILE, ["msd_atom_major", "aos_deinterleaved_loadu"], **INC)
+    A, B, rot = Region("a"), Region("b"), Region("rot")
+    A.mem0, B.mem0 = A.mem, B.mem
+    Ga, Gb = ctx.real("G_a"), ctx.real("G_b")
+    calls = []
+
+    def msd_model(interp, args):
+        Mp = args[0]
+        calls.append(dict(M=[Mp.region.read(Mp.off + k) for k in range(9)], Ga=args[1], Gb=args[2], n=args[3], rot=args[4], rotp=args[5]))
+        return SReal(z3.Real("msd_result"))
+
+    c.call_models["msdFromMandG"] = msd_model
+    out = ctx.ccall("msd_atom_major", n, ((n + 3) // 4) * 4, Ptr(A, 0), Ptr(B, 0), Ga, Gb, 1 if compute_rot else 0, Ptr(rot, 0))
+    ctx.ensure("returns-normally", out.exc is None)
+    if out.exc is not None:
+        return
+    ctx.cover("returned")
+    ctx.ensure("msdFromMandG-called-once-and-its-result-returned", len(calls) == 1 and rterm(out.value) == z3.Real("msd_result"))
+    if len(calls) != 1:
+        return
+    k = calls[0]
+    ctx.ensure("G_a,G_b,atom-count,rotation-request-passed-through", z3.And(rterm(k["Ga"]) == rterm(Ga), rterm(k["Gb"]) == rterm(Gb), core.term(k["n"]) == n,
+                                                                            z3.BoolVal(bool(k["rot"]) == compute_rot and k["rotp"].region is rot)))
+    env = {}
+    ok = True
+    bad = []
+    for i in range(3):
+        for j in range(3):
+            got = polyid.to_sympy(rterm(k["M"][3 * i + j]), env)
+            want = sum(polyid.to_sympy(z3.Select(A.mem0, 3 * atom + i), env) * polyid.to_sympy(z3.Select(B.mem0, 3 * atom + j), env) for atom in range(n))
+            if sp.expand(got - want) != 0:
+                ok = False
+                bad.append((i, j))
+    ctx.ensure("M[3i+j]=sum_atoms-a[atom][i]*b[atom][j]" + ("" if ok else f"(wrong entries {bad})"), ok, kind="lemma-poly")
+    hi = 3 * n
+    reads_ok = all(z3.is_int_value(z3.simplify(t)) and z3.simplify(t).as_long() < hi for r in (A, B) for t in r.reads)
+    ctx.ensure("no-read-beyond-the-last-real-atom", reads_ok)
+    ctx.ensure("inputs-not-written", not A.writes and not B.writes)
+
+
+MSD_CASES = [(n, r) for n in (1, 2, 3, 4, 5, 6, 7, 8, 9) for r in (False,)] + [(7, True)]
+contract("C06", "mdtraj/rmsd/src/theobald_rmsd_sse.h", "msd_atom_major", cases=MSD_CASES, lang="c", replay="rmsd", covers=["returned"], max_paths=50)(msd_atom_major)
